@@ -162,7 +162,49 @@ def evaluate_large(case):
     return V, classes, nev
 
 
+def evaluate_regrow(case):
+    """The same iteration arguments on one handle before and after its length changed."""
+    darr = import_darr()
+    V, classes, nev = [], set(), 0
+    path = os.path.join(fresh_dir('c14g'), 'g.darr')
+    n0 = case['n']
+    ref = (np.arange(n0, dtype='<i4') * 3 + 1)
+    a = darr.asarray(path, ref, accessmode='r+')
+    for (cl, step, rem) in case['params']:
+        a2 = a
+        cur = ref.copy()
+        for change in ('none', 'append', 'truncate', 'append'):
+            if change == 'append':
+                extra = (np.arange(3, dtype='<i4') + 100 + len(cur))
+                a2.append(extra)
+                cur = np.concatenate([cur, extra])
+            elif change == 'truncate':
+                darr.truncate_array(a2, max(1, len(cur) - 4))
+                cur = cur[:max(1, len(cur) - 4)]
+            want = frames_spec(len(cur), cl, step, None, None, rem)
+            nev += 1
+            w1, fr = outcome_of(lambda: [tuple(f) for f in a2.iterindices(cl, stepsize=step, include_remainder=rem)])
+            w2, ch = outcome_of(lambda: list(a2.iterchunks(cl, stepsize=step, include_remainder=rem)))
+            if want is ValueError:
+                ok = w1 == 'raises' and w2 == 'raises'
+            else:
+                ok = w1 == 'returns' and fr == want and w2 == 'returns' and len(ch) == len(want) and \
+                    all(np.array_equal(c, cur[s:e]) for c, (s, e) in zip(ch, want))
+            if not ok:
+                V.append(viol('frames', 'iterchunks', 'after length change', 'frames not those of the current length',
+                              f'length {len(cur)} after {change}: iterindices({cl}, stepsize={step}, include_remainder={rem}) -> '
+                              f'{fr!r:.100}, specification {want!r:.100}'))
+                break
+            classes.add(('regrow', change))
+        # bring the array back to its start for the next parameter set
+        a = darr.asarray(path, ref, accessmode='r+', overwrite=True)
+    rmtree(os.path.dirname(path))
+    return V, classes, nev
+
+
 def evaluate_any(case):
+    if case.get('kind') == 'regrow':
+        return evaluate_regrow(case)
     return evaluate_large(case) if case.get('large') else evaluate(case)
 
 
@@ -171,6 +213,9 @@ def run(tier):
     cases = [{'n': n, 'chunklen': cl, 'N': N, 'chunks': n <= 8}
              for n in range(0, N + 1) for cl in list(range(1, N + 3)) + [0, -1]]
     cases.append({'large': True})
+    params = [[cl, step, rem] for cl in (1, 2, 3, 5) for step in (None, 1, 2, 4) for rem in (True, False)]
+    for n in (5, 8):
+        cases.append({'kind': 'regrow', 'n': n, 'params': params})
     return run_enum(
         'C14', tier, 'dv.checks.c14:evaluate_any', cases, chunk=2,
         rule=(f'every (n, chunklen, stepsize, startindex, endindex, include_remainder) with n in 0..{N}, chunklen in '
@@ -178,6 +223,7 @@ def run(tier):
               f'both flags: iterindices against a specification written from the property text, iterchunks (n <= 8) as '
               f'detached copies of a[frame] and concatenation to a[start:end]; fit_frames on the same grid with int, '
               f'integral-float and non-integral-float arguments, and a fixed list of large values (2^31+-1, 2^40, 2^63-1); '
+              f'the same arguments on one handle before and after append / truncate / append; '
               f'a class = (number of frames, has partial frame, gap/overlap/tile) or invalid'),
         assumptions=['random large values of the quantifier text are replaced by a fixed enumerated list'],
         extra_cov={'N': N})
